@@ -1,6 +1,7 @@
 package checks
 
 import (
+	"bytes"
 	"crypto"
 	"crypto/ecdsa"
 	"crypto/elliptic"
@@ -536,6 +537,14 @@ func runC16(c *Ctx) {
 				b := make([]byte, l)
 				copy(b, good)
 				rejects[fmt.Sprintf("length-%d-zero-padded", l)] = b
+			}
+			// the valid signature followed by whole further fields of the same width (zeros, a copy of r, a copy
+			// of the whole signature, random): 3n .. 8n octets
+			for k := 1; k <= 6; k++ {
+				for name, fillv := range map[string][]byte{"zeros": make([]byte, k*n), "copy-of-r": bytes.Repeat(good[:n], k), "random": mon.NewRand(uint64(c.Seed)).Sub(uint64(177000+si*8+k)).Bytes(k * n), "copy-of-signature": bytes.Repeat(good, k)[:k*n]} {
+					rejects[fmt.Sprintf("valid-followed-by-%d-more-fields-%s", k, name)] = append(append([]byte{}, good...), fillv...)
+				}
+				rejects[fmt.Sprintf("valid-preceded-by-%d-zero-fields", k)] = append(make([]byte, k*n), good...)
 			}
 			// (r, n-s) is a different, valid signature: must be accepted
 			alt := refcrypto.EncodeRS(cv, sg.r, new(big.Int).Sub(order, sg.s))
